@@ -16,6 +16,7 @@ package conc
 import (
 	"bufio"
 	"context"
+	"crypto/sha256"
 	"encoding/json"
 	"fmt"
 	"io"
@@ -122,6 +123,9 @@ func brOutcome(rsp *jrpc2.Response, err error) string {
 	}
 	var raw json.RawMessage
 	rsp.UnmarshalResult(&raw)
+	if len(raw) > 4096 {
+		return fmt.Sprintf("R:%d bytes, sha256 %x", len(raw), sha256.Sum256(raw))
+	}
 	return "R:" + string(raw)
 }
 
@@ -151,6 +155,10 @@ func brExec(cli *jrpc2.Client, op brOp) string {
 func brGenOp(g *rng, tag string) brOp {
 	methods := []string{"echo", "echo", "echo", "fail", "plain", "nosuch", "note", "deadline", "cancelled"} // not rpc.serverInfo: its metrics are process-global counters
 	mk := func(i int) (string, string) {
+		if g.chance(1, 60) {
+			// a request of more than a megabyte: no size is special to the HTTP transport
+			return "echo", fmt.Sprintf(`{"t":"%s.%d","v":%d,"pad":"%s"}`, tag, i, g.intn(100), strings.Repeat("p", 1<<20+g.intn(5000)))
+		}
 		return pick(g, methods), fmt.Sprintf(`{"t":"%s.%d","v":%d}`, tag, i, g.intn(100))
 	}
 	switch g.intn(6) {
